@@ -463,10 +463,14 @@ def _(g):
         g.assume(lo.val != 0)
     hi = g_bound(g, w, "hi", argtype="size")
     s = g.pos("stride")
-    form = g.choose(["expr", "e / stride"], "outer_hi.form")
+    form = g.choose(["expr", "e / stride", "e / (k * stride)", "e / c"], "outer_hi.form")
     oh = g_bound(g, w, "outer_hi")
     if form == "e / stride":
         oh = bop("/", oh, cst(s))
+    elif form == "e / (k * stride)":
+        oh = bop("/", oh, cst(s * g.pos("k")))
+    elif form == "e / c":
+        oh = bop("/", oh, cst(g.pos("c")))
     oh_kind = g.choose(["outer_hi positive", "outer_hi not positive"], "outer_hi.class")
     w.f42, w.f43 = lo_kind != "lower bound 0", oh_kind != "outer_hi positive"
     close_world(g, w, [for_(w.I, lo, hi, [assign(w.X, [rd(w.I)])])])
